@@ -7,7 +7,7 @@ V = os.path.dirname(os.path.dirname(os.path.abspath(__file__)))
 claimed = {
  "C01": ("exploration", "§3 C01",
    "Seeded search over write scripts x configurations x goroutine schedules of the real bgzf.Writer and bgzf.Reader running under a deterministic scheduler; every run is compared byte for byte with the concatenated payloads. Sampling, not proof: assurance is proportional to the runs, distinct schedules and probes reported in evidence.",
-   "Trusts: the simulator's scheduling-point granularity (channel, select, sync, go, disk calls), compress/gzip and compress/flate being deterministic and goroutine-free."),
+   "Trusts: the simulator's scheduling-point granularity (channel, select, sync, go, disk calls; every statement of package bgzf in a quarter of the runs), compress/gzip and compress/flate being deterministic and goroutine-free."),
  "C02": ("exploration", "§3 C02",
    "Seeded histories of Seek/Read/ReadByte/Blocked on files built by an independent BGZF encoder, checked operation by operation against a flat-stream reference model with a logical position; read-ahead worker, inflate goroutines and select order are scheduled by the tape.",
    "Trusts: the independent BGZF encoder/parser used as model (written from RFC 1952 and the SAM specification), scheduling-point granularity."),
@@ -23,6 +23,21 @@ claimed = {
  "C12": ("fault_enumeration", "§3 C12",
    "Every crash point of every run is examined: after each underlying Write returns and after each API call returns the delivered image must parse as complete members decoding to a prefix of the data written so far; Flush+Wait and Close durability; a failed write must never be followed by further appended members.",
    "Crash points are enumerated per run (counted in evidence), schedules and scripts sampled."),
+}
+
+techniques = {
+ "C01": "deterministic simulation: seeded schedules of the real writer/reader pipelines (sync-operation and, in a quarter of runs, statement granularity), simulated disk with short reads and delays, byte-exact comparison with the written data",
+ "C02": "deterministic simulation: seeded Seek/Read histories under seeded read-ahead schedules, checked step by step against a flat-stream reference model",
+ "C03": "deterministic simulation: cached vs uncached execution of the same history in one run, flat-stream model, statement-level scheduling points in bgzf/cache",
+ "C05": "deterministic simulation of the BAM writer/reader pipelines with an independent BAM encoder as byte-level oracle",
+ "C08": "deterministic simulation: same script under three (wc, schedule) pairs, independent RFC1952/BGZF framing validator, one injected write fault for the EOF-marker clause",
+ "C09": "fault enumeration under deterministic simulation: every underlying call index x fault kind, seeded schedules, deadlock/leak verdicts from the scheduler",
+ "C10": "fault enumeration: every truncation and every (position, value) substitution of writer-made streams, read back under seeded schedules",
+ "C11": "deterministic simulation with stored-state and transport fault injection on valid encodings (container level and payload level), enumerated structural aux edits, crash/stall capture with fresh-process confirmation",
+ "C12": "crash-point enumeration under deterministic simulation: the delivered image is validated after every underlying write and API call of every run",
+ "C13": "deterministic simulation: sequential pass then chunk replay under seeded read-ahead schedules; flat-stream model for ChunkReader",
+ "C14": "exhaustive short histories + seeded sequential and concurrent histories under statement-level scheduling, set-valued reference model, linearizability checking with porcupine",
+ "C18": "deterministic simulation of k reader pipelines feeding the merger, one input failing at a drawn read, stable-merge reference model",
 }
 
 na = {
@@ -58,7 +73,7 @@ def main():
             "engine": "htssim",
             "level_claimed": {"category": level, "text": text, "design_ref": ref},
             "level_note": note,
-            "technique": "deterministic simulation with fault injection: seeded scheduler over instrumented real code, simulated disk, reference-model oracles, shrinking replay files",
+            "technique": techniques.get(pid, "deterministic simulation with fault injection: seeded scheduler over instrumented real code, simulated disk, reference-model oracles, shrinking replay files"),
         })
     nas = [{"property_id": k, "reason": "not applicable to deterministic simulation: " + v} for k, v in sorted(na.items())]
     for k, v in sorted(pending.items()):
